@@ -40,7 +40,7 @@ CODE = {'Ok': 0, 'Corrupted': 1, 'DecryptFail': 2, 'Missing': 3, 'Malformed': 4,
 
 
 # --------------------------------------------------------------------------- history generation
-def gen_history(rng, length, plant=False):
+def gen_history(rng, length, plant=False, objects=False):
     """ops: dicts {op, client, ...}; labels of snapshots = index of the creating step.
     plant: somewhere in the second half an object whose contents do NOT hash to its name is written straight into the
     backend under a well-formed snapshot location (upload-objects, a damaged mirror): from then on every client must fail
@@ -54,6 +54,13 @@ def gen_history(rng, length, plant=False):
         if k < 0.3 or (i < 3 and not alive[repo]):
             h.append({'op': 'snapshot', 'client': client, 'tree': rng.randrange(4), 'note': rng.choice([None, 'n%d' % i])})
             alive[repo].append((i, client))
+        elif objects and k < 0.36:
+            h.append({'op': rng.choice(['mirror', 'list_objects', 'download_objects', 'upload_objects']), 'client': client,
+                      'skip_existing': rng.random() < 0.5})
+        elif objects and k < 0.40 and alive[repo]:
+            lab = rng.choice(alive[repo])
+            h.append({'op': 'delete_objects', 'client': client, 'labels': [lab[0]]})
+            alive[repo].remove(lab)
         elif k < 0.45:
             h.append({'op': 'list_snapshots', 'client': client})
         elif k < 0.55:
@@ -75,6 +82,19 @@ def gen_history(rng, length, plant=False):
                     alive[repo].remove((l, client))
         else:
             h.append({'op': 'clean', 'client': client})
+    if objects:
+        # the object-level commands around a snapshot that ANOTHER client removes: a mirror of the repository is taken,
+        # somebody else deletes a snapshot object, the mirror is uploaded again (--skip-existing), objects are listed and downloaded
+        a, b = (0, 1) if rng.random() < 0.7 else (3, 3)
+        repo = 1 if a == 3 else 0
+        if not alive[repo]:
+            h.append({'op': 'snapshot', 'client': a, 'tree': rng.randrange(4), 'note': None})
+            alive[repo].append((len(h) - 1, a))
+        lab = alive[repo][-1][0]
+        h += [{'op': 'list_snapshots', 'client': b}, {'op': 'mirror', 'client': b, 'skip_existing': False},
+              {'op': 'delete_objects', 'client': a, 'labels': [lab]},
+              {'op': 'upload_objects', 'client': b, 'skip_existing': True}, {'op': 'list_objects', 'client': b},
+              {'op': 'download_objects', 'client': b, 'skip_existing': False}, {'op': 'download_objects', 'client': a, 'skip_existing': True}]
     planted = None
     if plant:
         at = rng.randint(max(1, len(h) // 2), len(h))
@@ -94,6 +114,10 @@ def gen_history(rng, length, plant=False):
         h.append({'op': 'unplant', 'client': planted[1], 'label': planted[0]})
         h.append({'op': 'list_snapshots', 'client': planted[1]})
     h.append({'op': 'restore', 'client': 0, 'target': None})
+    if objects:
+        # one repository's mirror uploaded into the OTHER repository (the cache directory may be shared by both)
+        h += [{'op': 'mirror', 'client': 0, 'skip_existing': False}, {'op': 'upload_objects', 'client': 3, 'skip_existing': True, 'from': 0},
+              {'op': 'list_objects', 'client': 3}]
     return h
 
 
@@ -250,6 +274,49 @@ class World:
         else:
             (self.dir / 'repo1' / name).unlink(missing_ok=True)
 
+    def canon_name(self, n):
+        if n.startswith('snapshots/'):
+            name = n.rpartition('-')[2]
+            return 'snapshot:' + str(self.labels.get(name, name))
+        return n
+
+    def mirror_dir(self, repo):
+        return self.dir / f'mirror-{repo}'
+
+    def object_step(self, i, op, cl, repo, obs):
+        kind = op['op']
+        objs = self.objects(repo)
+        if kind == 'mirror':
+            o = cl.download_objects(self.mirror_dir(repo), skip_existing=op.get('skip_existing', False))
+            got = repolab.read_tree(self.mirror_dir(repo)) if self.mirror_dir(repo).is_dir() else {}
+            obs['files'] = {self.canon_name(n): ('same' if objs.get(n) == d else 'differs') for n, d in sorted(got.items())}
+        elif kind == 'download_objects':
+            dest = self.dir / f'dl-{i}'
+            # (names differ from run to run: the file that is "already there" is the oldest snapshot's, by label)
+            snaps = [p_[1] for l, p_ in sorted(self.paths.items()) if p_[0] == repo and p_[1] in objs]
+            if op.get('skip_existing') and snaps:
+                f = dest / snaps[0]
+                f.parent.mkdir(parents=True, exist_ok=True)
+                f.write_bytes(b'a file that is already there')
+            o = cl.download_objects(dest, prefix='snapshots/', skip_existing=op.get('skip_existing', False))
+            got = repolab.read_tree(dest) if dest.is_dir() else {}
+            obs['files'] = {self.canon_name(n): ('same' if objs.get(n) == d else 'differs') for n, d in sorted(got.items())}
+            shutil.rmtree(dest, ignore_errors=True)
+        elif kind == 'list_objects':
+            o = cl.list_objects()
+            obs['rows'] = sorted(self.canon_name(l.strip()) for l in o.stdout.splitlines() if l.strip())
+        elif kind == 'delete_objects':
+            paths = [self.paths[l][1] for l in op['labels'] if l in self.paths and self.paths[l][0] == repo]
+            o = cl.delete_objects(paths)
+        elif kind == 'upload_objects':
+            src = self.mirror_dir(op.get('from', repo))
+            tops = sorted(p.name for p in src.iterdir()) if src.is_dir() else []
+            o = cl.upload_objects(src, tops, skip_existing=op.get('skip_existing', False)) if tops else repolab.Outcome('Ok')
+            now = self.objects(repo)
+            mirror = repolab.read_tree(src) if src.is_dir() else {}
+            obs['files'] = {self.canon_name(n): ('stored' if now.get(n) == d else ('other' if n in now else 'absent')) for n, d in sorted(mirror.items())}
+        return o
+
     def plant(self, i, c):
         repo = 1 if c == 3 else 0
         rr, key = self.reader(c)
@@ -288,6 +355,8 @@ class World:
             elif op['label'] in self.planted:
                 self.remove_object(repo, self.paths[op['label']][1])
             o = repolab.Outcome('Ok')
+        elif kind in ('mirror', 'download_objects', 'list_objects', 'delete_objects', 'upload_objects'):
+            o = self.object_step(i, op, cl, repo, obs)
         elif kind == 'snapshot':
             o = cl.snapshot([self.base['trees'][op['tree']]], note=op['note'])
             if o.ok:
@@ -724,6 +793,25 @@ def model_text(history, run, variant):
         k = op['op']
         if k == 'snapshot':
             o = f'OPut P{i} SN{i}' if st['obs']['cls'] == 'Ok' else 'OLoad (Some [])'
+        elif k in ('mirror', 'download_objects', 'list_objects'):
+            o = 'OLoad (Some [])'
+        elif k == 'delete_objects':
+            for l in op['labels']:
+                if any(j == l for j, _ in created):
+                    if variant != 'none':
+                        ops.append(f'({who}, OCacheSet P{l} None)')       # delete-objects also drops the acting client's entry
+                        steps_idx.append(None)
+                    ops.append(f'({who}, ORemove P{l})')
+                    steps_idx.append(None)
+            o = 'OLoad (Some [])'
+        elif k == 'upload_objects':
+            # whatever snapshot objects of this repository the upload brought back (read off this run's own backend sets)
+            before = set(run['steps'][i - 1]['obs']['backend']) if i else set()
+            for j, cop in created:
+                if f'snapshot:{j}' in st['obs']['backend'] and f'snapshot:{j}' not in before and cop['op'] == 'snapshot' and 'from' not in op:
+                    ops.append(f'({who}, OPut P{j} SN{j})')
+                    steps_idx.append(None)
+            o = 'OLoad (Some [])'
         elif k == 'plant':
             o = f'OPut P{i} SN{i}' if st['extra'].get('planted_from') is not None else 'OLoad (Some [])'
         elif k == 'unplant':
@@ -808,6 +896,8 @@ def _label_of_term(t):
 
 # --------------------------------------------------------------------------- comparison with the cache-less run
 def diff_obs(a, b):
+    if a.get('files') != b.get('files'):
+        return 'files'
     if (a.get('either_error') or b.get('either_error')) and a.get('cls') != 'Ok' and b.get('cls') != 'Ok':
         a, b = dict(a, cls='error'), dict(b, cls='error')
     for key in ('cls', 'rows', 'tree', 'backend'):
@@ -828,9 +918,13 @@ def check_history(rep: Report, hid, history, result, variants, with_model=True):
                 key = diff_obs(sa['obs'], sb['obs'])
                 if key:
                     op = history[i]
+                    got_, ref_ = sb['obs'].get(key), sa['obs'].get(key)
+                    if key == 'files' and isinstance(got_, dict) and isinstance(ref_, dict):
+                        keys_ = [k_ for k_ in sorted(set(got_) | set(ref_)) if got_.get(k_) != ref_.get(k_)][:3]
+                        got_, ref_ = {k_[:24]: got_.get(k_, 'not written') for k_ in keys_}, {k_[:24]: ref_.get(k_, 'not written') for k_ in keys_}
                     rep.violations.append({
-                        'what': f'with cache variant "{v}" step {i} ({op["op"]} by {USERS[op["client"]]}) differs from the cache-less run in '
-                                f'{key}: {json.dumps(sb["obs"].get(key))[:150]} vs {json.dumps(sa["obs"].get(key))[:150]}',
+                        'what': f'with cache variant "{v}" step {i} ({op["op"]}{" --skip-existing" if op.get("skip_existing") else ""} by {USERS[op["client"]]}) '
+                                f'differs from the cache-less run in {key}: {json.dumps(got_)[:150]} vs {json.dumps(ref_)[:150]}',
                         'signature': {'variant': v, 'op': op['op'], 'differs': key},
                         'replay': {'history_id': hid, 'history': history, 'variant': v, 'step': i}})
                     break
@@ -887,7 +981,7 @@ def run(ctx) -> Report:
     histories = []
     for hid in range(n):
         seed = ctx.rng.randrange(1 << 30)
-        histories.append((hid, seed, gen_history(ctx.rng, ctx.rng.randint(8, 14), plant=hid % 2 == 0)))
+        histories.append((hid, seed, gen_history(ctx.rng, ctx.rng.randint(8, 14), plant=hid % 2 == 0, objects=hid % 2 == 1)))
     run_histories(ctx, rep, histories, VARIANTS_QUICK)
     run_crowds(ctx, rep, [(kind, ctx.rng.randrange(1 << 30)) for kind in ('plain', 'encrypted') for _ in range(ctx.scale(1, 4))])
     return rep
@@ -901,7 +995,7 @@ def search(ctx, broken) -> Report:
         if isinstance(c, dict) and 'history' in c:
             histories.append((1000 + len(histories), ctx.rng.randrange(1 << 30), c['history']))
     for hid in range(40):
-        histories.append((hid, ctx.rng.randrange(1 << 30), gen_history(ctx.rng, ctx.rng.randint(8, 16), plant=hid % 2 == 0)))
+        histories.append((hid, ctx.rng.randrange(1 << 30), gen_history(ctx.rng, ctx.rng.randint(8, 16), plant=hid % 2 == 0, objects=hid % 2 == 1)))
     run_histories(ctx, rep, histories, VARIANTS_QUICK, with_model=False)
     run_crowds(ctx, rep, [(kind, ctx.rng.randrange(1 << 30)) for kind in ('plain', 'encrypted') for _ in range(4)])
     return rep
